@@ -10,25 +10,31 @@ vars == <<tid, l, flg, done, now, waits, lvl, bad, acq, rel, held, taint, unw>>
 \* a is inside, innermost last; taint: supplies whose level the events no longer determine (interrupted transfers)
 \* waits: set of [a, c] - awaits in progress;  flg / done / now mirror the atoms from the observed events
 Init == /\ tid \in 1..N /\ l = 1 /\ bad = "" /\ now = 0
-        /\ flg = [f \in 1..4 |-> FALSE] /\ done = {} /\ waits = {} /\ lvl = [p \in 1..2 |-> 0]
+        /\ flg = [f \in 1..4 |-> FALSE] /\ done = {} /\ waits = {} /\ lvl = [p \in 1..2 |-> Zero]
         /\ acq = {} /\ rel = {} /\ held = [i \in Ids |-> <<>>] /\ taint = {1, 2} /\ unw = {}
+\* levels and amounts are vectors <<a, b>> over the resource types of a supply (one type: b = 0 throughout)
+Amt(e) == <<F(e, "amt", 0), F(e, "amtb", 0)>>
 RECURSIVE SumAmt(_)
-SumAmt(S) == IF S = {} THEN 0 ELSE LET x == CHOOSE y \in S : TRUE IN x.amt + SumAmt(S \ {x})
-LvLo(p) == lvl[p] - SumAmt({x \in acq : x.p = p})
+SumAmt(S) == IF S = {} THEN Zero ELSE LET x == CHOOSE y \in S : TRUE IN VAdd(x.amt, SumAmt(S \ {x}))
+LvLo(p) == VSub(lvl[p], SumAmt({x \in acq : x.p = p}))
 RECURSIVE SumSeq(_, _)
-SumSeq(q, p) == IF q = <<>> THEN 0 ELSE (IF Head(q).p = p THEN Head(q).amt ELSE 0) + SumSeq(Tail(q), p)
+SumSeq(q, p) == IF q = <<>> THEN Zero ELSE VAdd(IF Head(q).p = p THEN Head(q).amt ELSE Zero, SumSeq(Tail(q), p))
 RECURSIVE SumUnw(_, _)
-SumUnw(S, p) == IF S = {} THEN 0 ELSE LET a == CHOOSE y \in S : TRUE IN SumSeq(held[a], p) + SumUnw(S \ {a}, p)
-LvHi(p) == lvl[p] + SumAmt({x \in rel : x.p = p}) + SumUnw(unw, p)
+SumUnw(S, p) == IF S = {} THEN Zero ELSE LET a == CHOOSE y \in S : TRUE IN VAdd(SumSeq(held[a], p), SumUnw(S \ {a}, p))
+LvHi(p) == VAdd(VAdd(lvl[p], SumAmt({x \in rel : x.p = p})), SumUnw(unw, p))
 
-\* `x <rel> v` for a level x known to lie in lo..hi: certainly (sure) / possibly true
-RelIv(lo, hi, op, v, sure) ==
-  CASE op = "ge" -> (IF sure THEN lo ELSE hi) >= v
-    [] op = "gt" -> (IF sure THEN lo ELSE hi) > v
-    [] op = "le" -> (IF sure THEN hi ELSE lo) <= v
-    [] op = "lt" -> (IF sure THEN hi ELSE lo) < v
-    [] op = "eq" -> IF sure THEN lo = v /\ hi = v ELSE lo <= v /\ v <= hi
-    [] OTHER      -> IF sure THEN hi < v \/ lo > v ELSE ~(lo = v /\ hi = v)
+\* `x <rel> v` for a level vector x known to lie in lo..hi (per type), nt resource types: certainly (sure) /
+\* possibly true.  >=, >, <=, < hold iff they hold for every type, == iff every type is equal, != is its negation.
+RelIv(lo, hi, op, v, sure, nt) ==
+  LET T == 1..nt
+      EqSure == \A i \in T : lo[i] = v[i] /\ hi[i] = v[i]
+      EqPoss == \A i \in T : lo[i] <= v[i] /\ v[i] <= hi[i] IN
+  CASE op = "ge" -> \A i \in T : (IF sure THEN lo[i] ELSE hi[i]) >= v[i]
+    [] op = "gt" -> \A i \in T : (IF sure THEN lo[i] ELSE hi[i]) > v[i]
+    [] op = "le" -> \A i \in T : (IF sure THEN hi[i] ELSE lo[i]) <= v[i]
+    [] op = "lt" -> \A i \in T : (IF sure THEN hi[i] ELSE lo[i]) < v[i]
+    [] op = "eq" -> IF sure THEN EqSure ELSE EqPoss
+    [] OTHER      -> IF sure THEN ~EqPoss ELSE ~EqSure
 \* independent evaluator of condition expressions over the observed atom values
 \* sure = TRUE: the condition certainly holds; sure = FALSE: it possibly holds (they differ only for resource levels
 \* while a borrow block is being entered or left)
@@ -44,7 +50,7 @@ EvM(c, fl, dn, t, sure) ==
     [] c[1] = "eq"    -> t = c[2]
     [] c[1] = "inst"  -> TRUE
     [] c[1] = "etern" -> FALSE
-    [] c[1] = "lvl"   -> IF c[2] \in taint THEN ~sure ELSE RelIv(LvLo(c[2]), LvHi(c[2]), c[4], c[3], sure)
+    [] c[1] = "lvl"   -> IF c[2] \in taint THEN ~sure ELSE RelIv(LvLo(c[2]), LvHi(c[2]), c[4], c[3], sure, c[5])
     [] c[1] = "all"   -> \A i \in 1..Len(c[2]) : EvM(c[2][i], fl, dn, t, sure)
     [] c[1] = "any"   -> \E i \in 1..Len(c[2]) : EvM(c[2][i], fl, dn, t, sure)
     [] OTHER -> FALSE
@@ -52,14 +58,14 @@ Ev(c, fl, dn, t) == EvM(c, fl, dn, t, TRUE)
 Poss(c, fl, dn, t) == EvM(c, fl, dn, t, FALSE)
 Nested(c) == c[1] \in {"all", "any"} /\ \E i \in 1..Len(c[2]) : c[2][i][1] \in {"all", "any"}
 CondOf(e) == IF e.op = "await_f" THEN (IF e.v THEN <<"flag", e.f>> ELSE <<"nflag", e.f>>)
-             ELSE IF e.op = "await_lvl" THEN <<"lvl", e.p, e.v, F(e, "rel", "ge")>> ELSE e.c
+             ELSE IF e.op = "await_lvl" THEN <<"lvl", e.p, <<e.v, F(e, "vb", 0)>>, F(e, "rel", "ge"), F(e, "nt", 1)>> ELSE e.c
 
 Fail(c) == bad' = c /\ UNCHANGED <<flg, done, now, waits>>
 DropLast1(q) == SubSeq(q, 1, Len(q) - 1)
 \* the amount of the call activity a has in progress (its latest begin event)
 RECURSIVE PendAt(_, _)
-PendAt(a, i) == IF i < 1 THEN 0 ELSE LET e == Traces[tid][i] IN
-                IF e.e = "b" /\ F(e, "a", 0) = a THEN F(e, "amt", 0) ELSE PendAt(a, i - 1)
+PendAt(a, i) == IF i < 1 THEN Zero ELSE LET e == Traces[tid][i] IN
+                IF e.e = "b" /\ F(e, "a", 0) = a THEN Amt(e) ELSE PendAt(a, i - 1)
 Pend(a) == PendAt(a, l - 1)
 GetL(q, i) == IF i <= Len(q) THEN q[i] ELSE 0
 Step ==
@@ -68,21 +74,23 @@ Step ==
   /\ LET e0 == Traces[tid][l] o == F(e0, "op", "") a0 == F(e0, "a", 0) p0 == F(e0, "p", F(e0, "id", 0))
          mine == {x \in acq : x.a = a0}  ret == {x \in rel : x.a = a0}
          isres == F(e0, "blk", "") = "res"
-         top == IF a0 \in Ids /\ held[a0] # <<>> THEN held[a0][Len(held[a0])] ELSE [p |-> p0, amt |-> 0]
+         top == IF a0 \in Ids /\ held[a0] # <<>> THEN held[a0][Len(held[a0])] ELSE [p |-> p0, amt |-> Zero]
          Anon(S) == {[x EXCEPT !.a = 0] : x \in S} IN
      \* changes of the level itself take effect with the call (and not at all if the call is refused)
-     /\ lvl' = IF e0.e = "init" THEN [p \in 1..2 |-> GetL(e0.res, p)]
+     /\ lvl' = IF e0.e = "init" THEN [p \in 1..2 |-> <<GetL(e0.res, p), IF "resb" \in DOMAIN e0 THEN GetL(e0.resb, p) ELSE 0>>]
                ELSE IF p0 \notin 1..2 THEN lvl
-               ELSE IF e0.e = "b" /\ o = "inc" THEN [lvl EXCEPT ![p0] = @ + e0.amt]
-               ELSE IF e0.e = "b" /\ o = "dec" THEN [lvl EXCEPT ![p0] = @ - e0.amt]
-               ELSE IF e0.e = "b" /\ o = "rset" THEN [lvl EXCEPT ![p0] = e0.amt]
-               ELSE IF e0.e = "x" /\ o = "dec" THEN [lvl EXCEPT ![p0] = @ + Pend(a0)]
-               ELSE IF e0.e = "x" /\ o = "inc" THEN [lvl EXCEPT ![p0] = @ - Pend(a0)]
-               ELSE IF e0.e = "r" /\ o \in {"borrow", "claim"} THEN [lvl EXCEPT ![p0] = @ - SumAmt(mine)]
-               ELSE IF e0.e = "r" /\ o = "leave" /\ isres THEN [lvl EXCEPT ![p0] = @ + SumAmt(ret)]
+               ELSE IF e0.e = "b" /\ o = "inc" THEN [lvl EXCEPT ![p0] = VAdd(@, Amt(e0))]
+               ELSE IF e0.e = "b" /\ o = "dec" THEN [lvl EXCEPT ![p0] = VSub(@, Amt(e0))]
+               \* set() replaces only the types it names (mask 1: a, 2: b, 3: both)
+               ELSE IF e0.e = "b" /\ o = "rset" THEN LET m == F(e0, "mask", 3) IN
+                    [lvl EXCEPT ![p0] = <<IF m \in {1, 3} THEN Amt(e0)[1] ELSE @[1], IF m \in {2, 3} THEN Amt(e0)[2] ELSE @[2]>>]
+               ELSE IF e0.e = "x" /\ o = "dec" THEN [lvl EXCEPT ![p0] = VAdd(@, Pend(a0))]
+               ELSE IF e0.e = "x" /\ o = "inc" THEN [lvl EXCEPT ![p0] = VSub(@, Pend(a0))]
+               ELSE IF e0.e = "r" /\ o \in {"borrow", "claim"} THEN [lvl EXCEPT ![p0] = VSub(@, SumAmt(mine))]
+               ELSE IF e0.e = "r" /\ o = "leave" /\ isres THEN [lvl EXCEPT ![p0] = VAdd(@, SumAmt(ret))]
                ELSE lvl
      \* a block whose entering / leaving is cut short stays undetermined for good (a = 0: nobody completes it)
-     /\ acq' = IF e0.e = "b" /\ o \in {"borrow", "claim"} THEN acq \cup {[n |-> l, a |-> a0, p |-> p0, amt |-> e0.amt]}
+     /\ acq' = IF e0.e = "b" /\ o \in {"borrow", "claim"} THEN acq \cup {[n |-> l, a |-> a0, p |-> p0, amt |-> Amt(e0)]}
                ELSE IF e0.e \in {"r", "x"} /\ o \in {"borrow", "claim"} THEN acq \ mine
                ELSE IF e0.e = "u" /\ o \in {"borrow", "claim"} THEN (acq \ mine) \cup Anon(mine)
                ELSE acq
